@@ -32,6 +32,8 @@ let parse_op tok =
   | ["merge"; s] -> OMergeTo (b s)
   | ["mergeself"; c] -> OMergeSelf (b c)
   | ["swap"] -> OSwap
+  | ["moveto"; s] -> OMoveAssign (b s)
+  | ["copyto"; s] -> OCopyAssign (b s)
   | ["count"; c] -> OCount (b c)
   | ["has"; c; k] -> OHas (b c, z k)
   | _ -> failwith ("bad op " ^ tok)
@@ -111,6 +113,13 @@ let run_g toks =
   match toks with
   | ["rm"; _; c; i; n] -> print_endline (oc (Gen_ArrayShifter.coq_Remove_guard (u64 c) (u64 i) (u64 n)))
   | ["selrm"; c; i; n] -> print_endline (oc (Gen_SelectionGuards.coq_SelRemove_guard (u64 c) (u64 i) (u64 n)))
+  | ["insn"; "sa"; c; i; n] ->
+    (match Gen_SegmentedArrayGuards.coq_SegInsertN_guard (u64 c) (u64 i) (u64 n) with
+     | GenPrelude.Exn -> print_endline "X"
+     | GenPrelude.Ok _ -> print_endline (oc (Gen_ArrayShifter.coq_InsertNogrow_guard (u64 c) (u64 i) (u64 n)))
+     | o -> print_endline (oc o))
+  | ["idx"; "sa"; c; i] -> print_endline (oc (Gen_SegmentedArrayGuards.coq_SegIndex_guard (u64 c) (u64 i)))
+  | ["rmback"; "sa"; c; n] -> print_endline (oc (Gen_SegmentedArrayGuards.coq_SegRemoveBack_guard (u64 c) (u64 n)))
   | ["insn"; _; c; i; n] ->
     (match Gen_ArrayGuards.coq_InsertN_guard (u64 c) (u64 i) (u64 n) with
      | GenPrelude.Exn -> print_endline "X"
